@@ -52,10 +52,14 @@ func ruleDomainSML(p *Prog, r *Report) {
 			PreBind: bindErrNil(fn, "strconv.ParseUint", 0),
 			Consts:  []int64{0, 127, 128, 255, 256, 321, 65535, 65536}, What: "code <= 127",
 			Accept: func(v []Val) bool { return inRange(v[0], 0, 127) }})
-		CheckDomain(p, r, DomainSpec{Rule: rule, Key: rule + ":sml.parseASCII:quoted-rune", Fn: fn, Sink: isParserErrorf,
-			Subjs:  []Subj{{Name: "rune of a quoted string", Kind: SRange, Ord: 0, Type: types.Typ[types.Rune]}},
-			Consts: []int64{0, 127, 128, 255, 256, 0xFFFD}, What: "rune <= 127",
-			Accept: func(v []Val) bool { return v[0].K == KInt && v[0].I.Cmp(newBig(127)) <= 0 }})
+		if len(stringRangeSites(fn)) == 0 {
+			quotedRuneByEvaluation(p, r, rule, fn)
+		} else {
+			CheckDomain(p, r, DomainSpec{Rule: rule, Key: rule + ":sml.parseASCII:quoted-rune", Fn: fn, Sink: isParserErrorf,
+				Subjs:  []Subj{{Name: "rune of a quoted string", Kind: SRange, Ord: 0, Type: types.Typ[types.Rune]}},
+				Consts: []int64{0, 127, 128, 255, 256, 0xFFFD}, What: "rune <= 127",
+				Accept: func(v []Val) bool { return v[0].K == KInt && v[0].I.Cmp(newBig(127)) <= 0 }})
+		}
 	}
 	if fn := p.MustFunc(r, "sml", "(*parser).parseStreamFunctionCode"); fn != nil {
 		CheckDomain(p, r, DomainSpec{Rule: rule, Key: rule + ":sml.parseStreamFunctionCode:stream", Fn: fn, Sink: isParserErrorf,
@@ -413,4 +417,69 @@ func ruleSMLTables(p *Prog, r *Report) {
 		}
 	}
 	r.Floor(rule, 12)
+}
+
+// quotedRuneByEvaluation decides the quoted-rune obligation when parseASCII
+// does not walk the string in a loop of its own (it may use strings.IndexFunc
+// or a helper): the token list is bound to a single quoted string holding one
+// rune - a representative of each cell cut out by 127/128 and the constants of
+// the code - and the parser must report exactly the runes above 127, and hand
+// the others to the node unchanged.
+func quotedRuneByEvaluation(p *Prog, r *Report, rule string, fn *ssa.Function) {
+	key := rule + ":sml.parseASCII:quoted-rune"
+	pos := p.Pos(fn.Pos())
+	ttQ, ok := smlConst(p, "tokenTypeQuotedString")
+	toksCalls := callSites(fn, "(*sml.parser).getDataItemValueTokens")
+	if !ok || len(toksCalls) != 1 {
+		r.unk(rule, key, pos, "neither a loop over the runes of a quoted string nor a single call of getDataItemValueTokens found in parseASCII")
+		return
+	}
+	reps := []rune{0, 1, 31, 32, 'a', '~', 126, 127, 128, 129, 255, 256, 0x7FF, 0x800, 0xFFFD, 0x10000, 0x10FFFF}
+	var bad, undec []string
+	for _, c := range reps {
+		in := NewInterp(p)
+		in.PathBind["toks[0].typ"] = int64Val(ttQ)
+		in.PathBind["toks[0].val"] = strVal(`"` + string(c) + `"`)
+		in.Bind = func(v ssa.Value, fr *frame) (Val, bool) {
+			if v == ssa.Value(toksCalls[0]) {
+				return Val{K: KSlice, S: "toks", Len: 1}, true
+			}
+			return Val{}, false
+		}
+		refused := false
+		var built *Val
+		in.OnCall = func(call *ssa.Call, callee *ssa.Function, a []Val, fr *frame) {
+			if isParserErrorf(callee) {
+				refused = true
+			}
+			if callee.Name() == "NewASCIINode" && fr.fn == fn && len(a) == 1 {
+				v := a[0]
+				built = &v
+			}
+		}
+		in.Run(fn, defaultArgs(fn), nil)
+		what := fmt.Sprintf("%#U", c)
+		if len(in.Stuck) > 0 || in.OpaqueSubject {
+			undec = append(undec, what+": evaluation stuck")
+			continue
+		}
+		switch {
+		case c > 127 && !refused:
+			bad = append(bad, what+" inside a quoted string is accepted without a diagnostic")
+		case c <= 127 && refused:
+			bad = append(bad, what+" inside a quoted string is reported as an error")
+		case c <= 127 && (built == nil || built.K != KStr):
+			undec = append(undec, what+": the string handed to NewASCIINode could not be determined")
+		case c <= 127 && built.S != string(c):
+			bad = append(bad, fmt.Sprintf("the quoted string %q reaches the node as %q", string(c), built.S))
+		}
+	}
+	switch {
+	case len(bad) > 0:
+		r.bad(rule, key, pos, strings.Join(firstN(bad, 4), "; "))
+	case len(undec) > 0:
+		r.unk(rule, key, pos, strings.Join(firstN(undec, 4), "; "))
+	default:
+		r.ok(rule, key, pos, fmt.Sprintf("evaluated on a quoted string of one rune for %d representatives around 127/128 and the UTF-8 length boundaries: exactly the runes above 127 are reported, every other rune reaches the node unchanged", len(reps)))
+	}
 }
